@@ -195,6 +195,10 @@ func checkEVMTxBlockedTarget(tx *Transaction, logHeight int64, txhash string) er
 				tlog.Error("CheckTxBlockedAccount hit", "txhash", txhash, "height", logHeight, "pos", "proxyInnerTo", "addr", to)
 				return fmt.Errorf("%w: proxied tx to %s", ErrBlockedAccount, to)
 			}
+			// the inner transaction may itself be an evm call: its contract and transfer target count too
+			if err := checkEVMTxBlockedTarget(inner, logHeight, txhash); err != nil {
+				return err
+			}
 		}
 	}
 	return nil
